@@ -27,6 +27,8 @@ def gen_config(rnd, S, opts=None):
                "futures_settlement_price_type": rnd.choice(["close", "settlement"])}
     if opts.get("c06_plans"):
         S["_c06_plans"] = True           # follow-up orders sent from a TRADE handler; a resting auction order plus bar orders on one instrument
+    if opts.get("pos_roundtrip"):
+        S["_pos_roundtrip"] = True       # after each callback every position's state is written and read back into a fresh object: what can be closed must not change
     if opts.get("force_volume_limit"):
         sim["volume_limit"] = True
     if opts.get("trade_handler_acts"):
@@ -299,6 +301,23 @@ def run_trading(rnd, S, cfgk, intensity=1.0, script=None, analyser=False, ids=No
                     return [r0, r1, r2]
                 out.append(fg)
             return out
+        if phase == "AUC" and plan.get("typed_double") and plan["fut"] and plan["bars"] == 1 and reseed_key is None:
+            # second day's auction: yesterday's 2 lots; a limit close of both, priced to rest in the auction and to fill on the day bar, then a
+            # market close of 2 more: nothing is left to close, the second must be refused
+            oid, side = plan["fut"]
+            frec = next(x for x in S["futures"] if x["id"] == oid)
+            try:
+                bar = frec["bars"].get(S["cal"].index(env.trading_dt.date()))
+            except ValueError:
+                bar = None
+            if bar is not None and bar[5] >= 20 and ((side == "long" and bar[2] >= bar[1] + 2) or (side == "short" and bar[2] <= bar[1] - 2)):
+                def ft(call, before, oid=oid, side=side, lim=float(round((bar[1] + bar[2]) / 2))):
+                    call.update(api="plan_future_double_close", args=(oid, side, lim))
+                    close_fn = api.sell_close if side == "long" else api.buy_close
+                    r1 = close_fn(oid, 2, price_or_style=LimitOrder(lim))
+                    r2 = close_fn(oid, 2)
+                    return [r1, r2]
+                out.append(ft)
         # two auction limit orders on one instrument that both rest through the auction and both fill on the day bar (one matching pass)
         if S.get("_trade_handler_acts") and phase == "AUC" and stocks and "STOCK" in context.portfolio.accounts and reseed_key is None:
             try:
@@ -384,6 +403,7 @@ def run_trading(rnd, S, cfgk, intensity=1.0, script=None, analyser=False, ids=No
             plan["fut"] = (srnd.choice(futs), srnd.choice(["long", "short"])) if (futs and "FUTURE" in context.portfolio.accounts and srnd.random() < 0.6) else ()
             plan["generic"] = bool(S.get("_plan_generic_close")) and srnd.random() < 0.35
             plan["ct_twice"] = (not plan["generic"]) and srnd.random() < 0.4
+            plan["typed_double"] = bool(S.get("_plan_generic_close")) and (not plan["generic"]) and (not plan["ct_twice"]) and srnd.random() < 0.6
             plan["cash_edge_day"] = srnd.randrange(1, 5) if (stocks and "STOCK" in context.portfolio.accounts and srnd.random() < 0.5) else 0
         if plan["fut"]:
             oid, side = plan["fut"]
@@ -393,7 +413,7 @@ def run_trading(rnd, S, cfgk, intensity=1.0, script=None, analyser=False, ids=No
                     call.update(api="plan_future_open", args=(oid, side, 2))
                     return [open_fn(oid, 2)]
                 out.append(f1)
-            elif day == 2 and plan.get("generic"):
+            elif day == 2 and (plan.get("generic") or plan.get("typed_double")):
                 pass
             elif day == 2 and plan.get("ct_twice"):
                 def f2c(call, before, oid=oid, side=side, open_fn=open_fn, close_fn=close_fn):
@@ -766,7 +786,28 @@ def run_trading(rnd, S, cfgk, intensity=1.0, script=None, analyser=False, ids=No
             tr.events.append(("CALL", call))
             tr.stats["calls"] += 1
 
-    handlers = {"init": init, "open_auction": lambda c, b: ops(c, "AUC"), "handle_bar": lambda c, b: ops(c, "BAR")}
+    def pos_roundtrip(context):
+        env = Environment.get_instance()
+        for t, a in context.portfolio.accounts.items():
+            for pos in list(a.get_positions()):
+                try:
+                    clone = type(pos)(pos.order_book_id, pos.direction)
+                    clone.set_state(pos.get_state())
+                    a0 = (pos.quantity, pos.closable, pos.today_closable, pos._old_quantity)
+                    a1 = (clone.quantity, clone.closable, clone.today_closable, clone._old_quantity)
+                except Exception as ex:
+                    a0, a1 = None, repr(ex)
+                tr.stats["position_roundtrips"] += 1
+                if a0 != a1:
+                    tr.events.append(("POS_ROUNDTRIP", {"cal": env.calendar_dt, "book": pos.order_book_id, "direction": pos.direction.name, "acct": t, "live": a0, "restored": a1}))
+
+    def with_roundtrip(f):
+        def g(c, b):
+            f(c, b)
+            if S.get("_pos_roundtrip"):
+                pos_roundtrip(c)
+        return g
+    handlers = {"init": init, "open_auction": with_roundtrip(lambda c, b: ops(c, "AUC")), "handle_bar": with_roundtrip(lambda c, b: ops(c, "BAR"))}
     if script is not None:
         handlers = script(tr, handlers)
     with recorder.instrument(tr.rec):
